@@ -35,11 +35,24 @@ func ZZC18Enum() {
 	kinds := []gen.Kind{gen.KInt, gen.KStr, gen.KBool, gen.KNull}
 	n := v.Choose(1, v.Param("values", 2))
 	var lits [][]byte
+	var decs [][]byte // decoded value for strings, literal text otherwise
 	var ks []gen.Kind
 	for i := 0; i < n; i++ {
 		k := kinds[v.Choose(0, len(kinds)-1)]
 		ks = append(ks, k)
-		lits = append(lits, smallLit(k))
+		if k == gen.KStr && i == 0 {
+			l, d := docString(1, v.Param("piecekinds", 6)) // a string value that may be written with an escape
+			lits = append(lits, l)
+			decs = append(decs, d)
+		} else {
+			l := smallLit(k)
+			lits = append(lits, l)
+			if k == gen.KStr {
+				decs = append(decs, l[1:len(l)-1])
+			} else {
+				decs = append(decs, l)
+			}
+		}
 	}
 	// rule text with layout and comments
 	layout := v.Choose(0, 3) // 0 compact, 1 one per line, 2 with // comments, 3 with /* */ comments
@@ -79,7 +92,7 @@ func ZZC18Enum() {
 	dup := false
 	for i := range lits {
 		for j := 0; j < i; j++ {
-			if ks[i] == ks[j] && eqBytes(lits[i], lits[j]) {
+			if ks[i] == ks[j] && eqBytes(decs[i], decs[j]) {
 				dup = true
 			}
 		}
